@@ -357,7 +357,11 @@ def _iso8583_to_field(bit, bit_config, message_data, encoding=DEFAULT_ENCODING):
 
     # if a PDS field, break it down again and add to results
     if field_processor == 'PDS':
-        return_values.update(_pds_to_dict(field_data))
+        try:
+            return_values.update(_pds_to_dict(field_data))
+        except ValueError as ex:
+            raise Iso8583DataError(f'Unable to process DE{bit} PDS data',
+                                   binary_context_data=message_data, original_exception=ex)
 
     # if a DE43 field, break in down again and add to results
     if field_processor == 'DE43':
